@@ -93,6 +93,9 @@ def c03(tier, seed):
         S("Quinoa", "Silt", seed=seed + 9, iwc={"wc_type": "Num", "value": [0.2]}, events=L.drought_events(y, (4, 20), 150), regime="arid"),
         S("Sunflower", seed=seed + 10, soil_spec=L.LAYERED_SOILS["uneven_dz"], events=storms, iwc={"wc_type": "Pct", "value": [100]}),
         S("Potato", seed=seed + 11, soil_spec=L.LAYERED_SOILS["impeding_uneven"], iwc={"value": ["SAT", "SAT"], "depth_layer": [1, 2]}, events=storms),
+        S("Wheat", seed=seed + 13, soil_spec=L.LAYERED_SOILS["sand_over_clay"], irr={"method": 4, "kw": {"NetIrrSMT": 100}}, seasons=2, regime="arid", iwc={"value": ["WP", "WP"], "depth_layer": [1, 2]}),
+        S("Maize", seed=seed + 14, soil_spec=L.LAYERED_SOILS["two_layer"], irr={"method": 4, "kw": {"NetIrrSMT": 80}}, iwc={"wc_type": "Pct", "value": [30, 30], "depth_layer": [1, 2]}),
+        S("Sorghum", seed=seed + 15, soil_spec=L.LAYERED_SOILS["three_layer"], irr={"method": 4, "kw": {"NetIrrSMT": 35}}, iwc={"value": ["FC", "FC", "FC"], "depth_layer": [1, 2, 3]}, regime="hot"),
         S("Cotton", seed=seed + 12, regime="wet", soil_spec=L.LAYERED_SOILS["low_ksat"], iwc={"value": ["FC", "SAT"], "depth_layer": [1, 2]}, events=storms),
     ]
     scs += L.diverse(rnd, 220 if tier == "thorough" else 5, focus="no_restrictive") + L.hard_cases(rnd, None if tier == "thorough" else 5)
@@ -121,6 +124,9 @@ def c04(tier, seed):
     scs += [
         S("Maize", "Clay", seed=seed + 31, field={"bunds": True, "z_bund": 0.25}, events=wet),
         S("PaddyRice", "Paddy", seed=seed + 32, regime="warm", field={"bunds": True, "z_bund": 0.2}, events=wet, iwc={"value": ["FC", "FC"], "depth_layer": [1, 2]}),
+        S("PaddyRice", "Paddy", seed=seed + 34, regime="warm", field={"bunds": True, "z_bund": 0.1, "mulches": True, "mulch_pct": 80, "f_mulch": 0.7}, seasons=2, off_season=True, iwc={"value": ["FC", "FC"], "depth_layer": [1, 2]}),
+        S("Tomato", "Paddy", seed=seed + 35, regime="warm", field={"bunds": True, "z_bund": 0.08}, irr={"method": 2, "kw": {"IrrInterval": 7, "WetSurf": 30, "AppEff": 75}}, iwc={"value": ["FC", "FC"], "depth_layer": [1, 2]}),
+        S("Wheat", "Paddy", seed=seed + 36, regime="temperate", field={"bunds": True, "z_bund": 0.05, "mulches": True, "mulch_pct": 100, "f_mulch": 1.0}, irr={"method": 5, "kw": {"depth": 6, "WetSurf": 20}}, iwc={"value": ["FC", "FC"], "depth_layer": [1, 2]}),
         S("Soybean", "SiltClay", seed=seed + 33, field={"bunds": True, "z_bund": 0.12},
           events=wet[:4] + [{"date": "2001/08/10", "P": 140}, {"date": "2001/08/11", "P": 100}, {"date": "2001/08/12", "P": 100}, {"date": "2001/08/13", "P": 90}]),
     ]
